@@ -7,8 +7,13 @@ Enumeration of (program, rendering):
                   each of C c * ! d D in every line gap, continuation at every token
                   boundary with each of the markers & 1 + $, statement labels in columns
                   1-5, labelled DO termination (CONTINUE, shared label, labelled last
-                  statement) — must give the same token-keyed battery as the free-form
-                  rendering (through the renderer's exact token map)
+                  statement), a zero in column 6 of initial lines, continued text that starts
+                  directly after the mark in column 7 (also on the second line of the file),
+                  trailing '!' comments that name the statement's entities after plain and
+                  after continued lines — must give the same token-keyed battery as the
+                  free-form rendering (through the renderer's exact token map); the names
+                  inside a trailing comment are asked too and compared with the same comment
+                  in the free-form rendering
 """
 from __future__ import annotations
 
@@ -53,6 +58,43 @@ def fixed_layouts(stmts, quick):
                 continue
             L.append(("join", i, {"join_next": {i}}))
             L.append(("join_tight", i, {"join_next": {i}, "join_sep": ";"}))
+    # a zero in column 6 is, like a blank, the mark of an initial line: on every statement, on one statement, on a
+    # continued statement and on the statement that follows a continued one
+    L.append(("zero_col6:all", None, {"zero_col6": set(code)}))
+    for i in code:
+        labelled = stmts[i].toks[0][2].isdigit()
+        if quick and i % 6 and not labelled:
+            continue
+        L.append(("zero_col6:one", i, {"zero_col6": {i}}))
+    # variants of the continuation renderings (rendering "cont", tag `variant`); quick: every n-th boundary of the
+    # enumeration (marker, statement, boundary), so that successive picks differ in marker, statement and boundary
+    n = 0
+    for mi, mk in enumerate(CONT_CHARS):
+        for i in code:
+            nt = len(stmts[i].toks)
+            labelled = stmts[i].toks[0][2].isdigit()
+            for t in range(2 if labelled else 1, nt):
+                n += 1
+                # tight: no blank between the mark and the text, `     xm)`; on the statement that starts the file the
+                # continuation is the second line of the file
+                if (mk in "x1&" and i == code[0]) or not n % (181 if quick else 3):
+                    L.append((f"cont:{mk}:tight", i, {"split": {i: [(t, "plain")]}, "fixed_cont_char": mk, "fixed_cont_tight": True}))
+                # a trailing comment after the non-final line(s) of the statement
+                if not n % (211 if quick else 4):
+                    L.append((f"cont:{mk}:trail_comment", i, {"split": {i: [(t, "trail_comment")]}, "fixed_cont_char": mk, "comment_names": True}))
+                if not (n + 1) % (307 if quick else 6) and t + 2 < nt:
+                    L.append((f"cont:{mk}:trail_comment2", i, {"split": {i: [(t, "trail_comment"), (nt - 1, "trail_comment")]},
+                                                               "fixed_cont_char": mk, "comment_names": True}))
+                if not (n + 2) % (401 if quick else 6):
+                    L.append((f"cont:{mk}:zero_col6", i, {"split": {i: [(t, "plain")]}, "fixed_cont_char": mk, "zero_col6": {i}}))
+                if not (n + 3) % (401 if quick else 6) and i + 1 < len(stmts) and stmts[i + 1].kind == "code":
+                    L.append((f"cont:{mk}:zero_next", i, {"split": {i: [(t, "plain")]}, "fixed_cont_char": mk, "zero_col6": {i + 1}}))
+    # a trailing '!' comment that names the entities of its statement
+    L.append(("trail_comment:all", None, {"trailing_comment": set(code), "comment_names": True}))
+    for i in code:
+        if quick and i % 6:
+            continue
+        L.append(("trail_comment:one", i, {"trailing_comment": {i}, "comment_names": True}))
     L.append(("case:upper", None, {"case": "upper"}))
     L.append(("case:lower", None, {"case": "lower"}))
     L.append(("crlf", None, {"eol": "\r\n"}))
@@ -75,15 +117,25 @@ def equiv_case(job, acc: Acc):
     stmts = _stmts(pname)
     if ("bat", pname) not in _ORIG:
         _ORIG[("bat", pname)] = c13.token_battery(stmts, layout.render(stmts), pname + ".f90")[0]
-    orig = _ORIG[("bat", pname)]
+    orig = dict(_ORIG[("bat", pname)])
     lay = layout.Layout(**kw)
     rend = layout.render(stmts, lay)
     if any(len(x) > 72 for x in rend.text.replace("\r", "").split("\n")):
         acc.count("skipped_line_longer_than_72")
         return
     trans, rev_t = c13.token_battery(stmts, rend, pname + ".f", light_far_from=anchor)
+    if rend.compos:
+        # the names inside the generated trailing comments: same answers as for the same comment in free form
+        twin = layout.render(stmts, layout.Layout(**{**kw, "fixed": False}))
+        want, got = comment_battery(stmts, twin, pname + ".f90"), comment_battery(stmts, rend, pname + ".f")
+        for k in got:
+            orig[k], trans[k] = want.get(k, "<no such comment in free form>"), got[k]
     acc.case(nontrivial_key=(pname, lname, anchor, repr(sorted(lay.describe().items()))), outcome=(pname, lname.split(":")[0]))
+    if lay.comment_names and not rend.compos:
+        acc.count("skipped_no_room_for_a_comment")
+        return
     tags0 = {"family": "equivalence", "program": pname, "rendering": lname.split(":")[0], "marker": lname.split(":")[1] if ":" in lname else "",
+             "variant": lname.split(":")[2] if lname.count(":") > 1 else "",
              "stmt_first": stmts[anchor].toks[0][2].lower() if anchor is not None and stmts[anchor].kind == "code" else ""}
     case = {"program": pname, "rendering": lname, "anchor": anchor, "layout": lay.describe()}
     if trans.get("fixed_flag") is not True:
@@ -104,6 +156,33 @@ def equiv_case(job, acc: Acc):
                                 b if not isinstance(b, list) else b[:6], what=f"{pname} {lname} at {anchor}: {kind} differs at {k}"))
     if len(acc.samples) < 2:
         acc.sample({"program": pname, "rendering": lname, "text_excerpt": rend.text[:400]})
+
+
+def comment_battery(stmts, rend, fname):
+    """definition / references asked on every name of the generated trailing comments of `rend`:
+    {("comment_def" | "comment_refs", (statement, k)): answer located by statement / token}."""
+    from ..driver import Server, worker_scratch
+
+    sc = worker_scratch("c13")
+    sc.wipe()
+    path = os.path.join(os.path.realpath(sc.path), fname)
+    with open(path, "w", newline="") as f:
+        f.write(rend.text)
+    s = Server([])
+    s.initialize(os.path.dirname(path))
+    rev = c13.Reverse(stmts, rend)
+    out = {}
+    for k, (ln, col, nm) in sorted(rend.compos.items()):
+        d = s.result("textDocument/definition", Server.tdpp(path, ln, col + len(nm) // 2))
+        if isinstance(d, dict):
+            d = (os.path.basename(d.get("uri", fname)) == fname, tuple(rev.stmts_on(d["range"]["start"]["line"])))
+        out[("comment_def", k)] = d
+        r = s.result("textDocument/references", Server.tdpp(path, ln, col + len(nm) // 2, context={"includeDeclaration": True}))
+        if isinstance(r, list):
+            r = sorted(repr((os.path.basename(x.get("uri", fname)) == fname, rev.tok(x["range"]["start"]["line"], x["range"]["start"]["character"])))
+                       for x in r)
+        out[("comment_refs", k)] = r
+    return out
 
 
 def _gfortran_fixed_ok(text):
@@ -228,7 +307,7 @@ def replay(rec):
             kw[k] = {int(a): b for a, b in v.items()}
         elif k == "split":
             kw[k] = {int(a): [tuple(x) for x in b] for a, b in v.items()}
-        elif k in ("trailing_comment", "join_next"):
+        elif k in ("trailing_comment", "join_next", "zero_col6"):
             kw[k] = set(v)
         else:
             kw[k] = v
